@@ -106,10 +106,28 @@ def run(tier):
                       '%s: %s at PC=%d SP=%d IM=%d T=%d + frame interrupt: %s; observed %s'
                       % (t['pair'], t['slot'], t['r0'][24], t['sp'], t['r0'][27], t['r0'][25], clause, t['obs'][0]), t)
     rep.evaluations += len(itr) * 2
+    # (E) whole loops executed by ONE run(start, stop) call, with the closed forms of the pure-Python simulator switched on
+    #     (fast_ldir / fast_djnz: what trace.py and #SIM use when nothing is printed per instruction): block copies that
+    #     cross 0xFFFF -> 0x0000 or descend into the ROM; judged by FastRun's rom-write / range clauses (the rest is C06's)
+    with mp.get_context('fork').Pool(16) as pool:
+        parts = pool.map(progdrv.fast_cases, [(sd * 389 + 3 + k, 14 if tier == 'quick' else 200, None) for k in range(16)])
+    fcases = [c for p in parts for c in p]
+    crossing = sum(1 for c in fcases if c['kind'] != 'djnz' and any(a < 0x4000 for a in c.get('dest', [])))
+    rep.extra['fast_run_cases'] = len(fcases)
+    rep.extra['fast_run_copies_reaching_rom_addresses'] = crossing
+    if crossing < 10:
+        raise MachineryError('vacuous C08 fast-run section: %d copies reach ROM addresses' % crossing)
+    for c, clause in c06.judge_fast(rep, fcases, wd):
+        if clause.split(':')[-1] in ('rom-write', 'range', 'exception'):
+            rep.violation('fast:%s:%s' % (c['kind'], clause),
+                          'run(%d, %d, interrupts=%d) of a %s program (loop instruction at %d, IFF=%d): %s; writes %s'
+                          % (c['r0'][24], c['stop'], c['ints'], c['kind'], c['at'], c['r0'][26], clause,
+                             {o['impl']: o['wr'][:6] for o in c['obs']}), dict(c, kind='fast-' + c['kind']))
+    rep.evaluations += len(fcases) * 3
     rep.rule = ('paging: every (o7ffd state x port class x value) edge + random histories replayed through real OUT/OUTI/OTIR/'
                 'LD (nn),A instructions on 4 simulators and skoolutils.Memory, each step validated as a Paging128 action; '
                 'steps: every opcode slot from boundary states judged for ranges/ROM/T (48K and locked 128K memory); every slot followed by '
-                'an accepted frame interrupt with SP at the ROM/RAM/64K edges; distinct_nontrivial = distinct '
+                'an accepted frame interrupt with SP at the ROM/RAM/64K edges; LDIR/LDDR/DJNZ loops as one run(start, stop) call with fast_ldir/fast_djnz (copies crossing 0xFFFF/0x4000) judged for rom-write/range by FastRun; distinct_nontrivial = distinct '
                 '(impl, action kind, port/region, instruction variant)')
     rmworkdir('c08')
     return rep.finish()
@@ -135,6 +153,17 @@ def replay(path):
             a = t['acts'][l - 1]
             found.append('paging:%s:%s:%s:%s: pre o7ffd=%d, action %d %s: observed %s' % (t['impl'], a[0], t['variants'][l - 1], clause, t['pre'], l, a,
                                                                                         t['obs'][l - 1]))
+    elif str(rp.get('kind', '')).startswith('fast-'):
+        from . import c06
+        from ..drivers import progdrv
+        replaylib.need(rp, path, 'r0', 'ov0', 'stop')
+        cbuild.preload()
+        c = progdrv.fast_case(rp['kind'][5:], rp['r0'], rp['ov0'], rp['stop'], rp.get('at', -1), rp.get('ints', 0))
+        if c is None:
+            raise MachineryError('unusable replay file %s: the program does not reach its stop address' % path)
+        for c2, clause in c06.judge_fast(rep, [c], wd):
+            if clause.split(':')[-1] in ('rom-write', 'range', 'exception'):
+                found.append('fast:%s:%s: run(%d, %d) writes %s' % (c2['kind'], clause, c2['r0'][24], c2['stop'], {o['impl']: o['wr'][:6] for o in c2['obs']}))
     elif rp.get('kind') == 'int-push':
         from . import c06
         t, _ = c06.rerun(rp, path)
